@@ -11,7 +11,9 @@
     * no Q-factor;
     * the ranges of every Sum are plain variables;
     * a name that is a range of some Sum of the expression never occurs as a `+X` value (σ' is not bound by sums).
-  Multi-world joint leaves are outside (Sum.simplify's own FIXME).
+  Multi-world joint leaves are outside THIS predicate; the widened quantifier `WellScopedW` (SemScopeW.lean) admits them,
+  and after the repair of `Sum.simplify` (several children per base variable: the sum is left alone) the C10 theorems
+  hold there as well (Props/C10MW.lean).
 -/
 import Y0.Model.Dsl
 
